@@ -895,7 +895,11 @@ class ArrayInterp:
                     e0 = v.elts[0]
                     if e0.kind == "arr" and e0.ndim is not None:
                         nd = e0.ndim + (1 if short == "stack" else 0)
-                return AV("arr", nd, F8 if not (v.kind == "arr" and v.dtype != F8) else v.dtype, {"C": "np.%s" % short})
+                # dtype of a concatenation of a literal of arrays: the common dtype of the parts when they agree (np.argmax columns stay int64)
+                dt_ = F8 if not (v.kind == "arr" and v.dtype != F8) else v.dtype
+                if v.kind in ("list", "tuple") and v.elts and all(e_.kind == "arr" and e_.dtype is not None for e_ in v.elts) and len({e_.dtype for e_ in v.elts}) == 1:
+                    dt_ = v.elts[0].dtype
+                return AV("arr", nd, dt_, {"C": "np.%s" % short})
             if short in ("sqrt", "abs", "sign", "sin", "cos", "tan", "arccos", "arcsin", "arctan", "arctan2", "exp", "log", "clip", "minimum", "maximum",
                          "fabs", "negative", "square", "power", "floor", "ceil", "round", "hypot", "fmin", "fmax", "isnan", "isfinite", "logical_and", "logical_or", "logical_not",
                          "deg2rad", "rad2deg", "cumsum", "cumprod", "nan_to_num", "absolute", "copysign", "degrees", "radians", "acos", "asin", "atan2", "atan", "pow"):
